@@ -167,6 +167,7 @@ def menu(M, seen):
         add({"op": "modify", "name": mname, "form": "wrong"})
         if n >= 1:
             add({"op": "modify", "name": mname, "form": "scalar"})
+            add({"op": "modify", "name": mname, "form": "scalar0"})
             add({"op": "modify", "name": mname, "form": "len1"})
             add({"op": "modify", "name": mname, "form": "len1col"})
             # the constructor called with the frame's own columns plus values to broadcast (a scalar, a one-element
@@ -195,6 +196,7 @@ def menu(M, seen):
         add({"op": "setitem", "name": nm, "form": "vector"})
         if n >= 1 or k == 0:
             add({"op": "setitem", "name": nm, "form": "scalar"})
+            add({"op": "setitem", "name": nm, "form": "scalar0"})
             add({"op": "setitem", "name": nm, "form": "len1"})
             add({"op": "setitem", "name": nm, "form": "len1col"})
         if k >= 1:
@@ -306,6 +308,8 @@ def side_frame(M, rows, with_existing):
 def value_of(form, n, M):
     if form == "scalar":
         return 5, [5]
+    if form == "scalar0":
+        return 0, [0]   # a falsy scalar is a value like any other
     if form == "len1col":
         return di.DataFrameColumn([5]), [5]
     if form == "len1":
